@@ -53,6 +53,10 @@ type (
 		// wrLocks: partition Id -> *sync.Mutex. Writers which emit write events for one partition store their records
 		// and publish their events one after another, so the events of a partition arrive in the order of its records
 		wrLocks sync.Map
+
+		// truncLock serializes Truncate() calls: a chunk list taken by one truncation must not be used after
+		// another one has removed (and closed) the chunks in it
+		truncLock sync.Mutex
 	}
 
 	// TruncateParams allows to provide parameters for Truncate() functions
@@ -433,6 +437,9 @@ type OnTruncateF func(ti TruncateInfo)
 
 // Truncate walks over matched journals and truncate the chunks, if needed
 func (s *Service) Truncate(ctx context.Context, tp TruncateParams, otf OnTruncateF) error {
+	s.truncLock.Lock()
+	defer s.truncLock.Unlock()
+
 	start := time.Now()
 	cremoved := 0
 	ts := uint64(0)
